@@ -20,14 +20,30 @@ TTL_TEXT = ('@prefix e: <http://e/> .\n@prefix rdf: <http://www.w3.org/1999/02/2
             'e:a rdf:type e:C ;\n  e:p "x" .\ne:b rdf:type e:C .\n')
 
 
+_TEXTS = {}
+
+
+def TEXTS():
+    """the fixture graph in every input syntax the library declares (the content always matches the declared format:
+    a parse error of the content is never what C20 judges)"""
+    if not _TEXTS:
+        import rdflib
+        g = rdflib.Graph()
+        g.parse(data=NT_TEXT, format="nt")
+        _TEXTS.update({"nt": NT_TEXT, "turtle": TTL_TEXT, "turtle_iter": TTL_TEXT,
+                       "tsv_spo": "".join(l[:-2].replace(" ", "\t", 2) + "\n" for l in NT_TEXT.split("\n") if l),
+                       "n3": g.serialize(format="n3"), "xml": g.serialize(format="xml"), "json-ld": g.serialize(format="json-ld")})
+    return _TEXTS
+
+
 class Fixtures(object):
     """files the argument vectors point to (scratch directory, removed by close())"""
 
     def __init__(self):
         self.dir = tempfile.mkdtemp(prefix="shexer-verif-c20-")
         self.files = {}
-        for fmt, text in (("nt", NT_TEXT), ("turtle", TTL_TEXT), ("turtle_iter", TTL_TEXT)):
-            base = os.path.join(self.dir, "g." + fmt)
+        for fmt, text in sorted(TEXTS().items()):
+            base = os.path.join(self.dir, "g." + fmt.replace("/", "_"))
             with open(base, "w") as fh:
                 fh.write(text)
             with gzip.open(base + ".gz", "wt") as fh:
@@ -63,7 +79,7 @@ def ctor_kwargs(a, fx):
         elif s == "graph_list_of_files_input":
             kw[s] = [fx.graph_file(fmt, a["comp"])]
         elif s == "raw_graph":
-            kw[s] = TTL_TEXT if fmt in ("turtle", "turtle_iter") else NT_TEXT
+            kw[s] = TEXTS().get(fmt, NT_TEXT)
         elif s == "url_graph_input":
             kw[s] = "http://127.0.0.1:9/g.nt"
         elif s == "list_of_url_input":
@@ -103,7 +119,7 @@ def _try_ctor(a):
     st, sh, exc, frame = runner.call_guarded(lambda: Shaper(**kw), timeout=10)
     res = {"id": a["id"], "ctor": "accept" if st == "ok" else ("ValueError" if exc == "ValueError" else "Other"),
            "ctor_exc": exc, "ctor_frame": frame, "call": "skipped", "call_exc": "", "call_frame": ""}
-    if st == "ok" and len(a["src"]) == 1 and a["src"][0] in LOCAL and a["fmt"] in ("nt", "turtle", "turtle_iter"):
+    if st == "ok" and len(a["src"]) == 1 and a["src"][0] in LOCAL and a["fmt"] in TEXTS():
         st2, txt, exc2, fr2 = runner.call_guarded(lambda: sh.shex_graph(string_output=True), timeout=10)
         res["call"] = "ok" if st2 == "ok" else ("ValueError" if exc2 == "ValueError" else "Other")
         res["call_exc"], res["call_frame"] = exc2, fr2
@@ -136,7 +152,7 @@ def _try_call(c):
 
 def arg_vectors(tier, rnd):
     # invalid values include case variants and near misses of the valid identifiers, not only an arbitrary string
-    fmts = ["nt", "turtle", "bogus", "NT", "Turtle"] if tier == "quick" else \
+    fmts = ["nt", "turtle", "tsv_spo", "turtle_iter", "json-ld", "bogus", "NT", "Turtle"] if tier == "quick" else \
         ["nt", "tsv_spo", "n3", "turtle", "xml", "json-ld", "turtle_iter", "bogus", "NT", "Turtle", "N3", "ttl", "rdf/xml", ""]
     comps = ["none", "gz", "zip", "bogus", "GZ"] if tier == "quick" else ["none", "gz", "zip", "xz", "bogus", "GZ", "Zip", "gzip", ""]
     exs = ["none", "all", "bogus", "ALL"] if tier == "quick" else ["none", "shape", "cons", "all", "bogus", "ALL", "Shape", "constraint", ""]
